@@ -829,6 +829,16 @@ func c20names(c *Ctx, m *c20m, run func(string) (*oStruct, string), pos token.Po
 		c.Unk("C20.R3", "proj#names", pos, "the definition registry is not a package-level map filled at start-up")
 		return
 	}
+	if len(m.defined) == 0 {
+		// no registering function was seen (the registry is filled some other way): the definition
+		// texts are those of the bundled proj4js global.js, which the package's registry ports
+		js, err := os.ReadFile(filepath.Join(c.P.Root, "proj", "proj4js-2.3.12", "lib", "global.js"))
+		if err == nil {
+			for _, mm := range regexp.MustCompile(`defs\('([^']+)',\s*"([^"]*)"\)`).FindAllStringSubmatch(string(js), -1) {
+				m.defined[mm[1]] = mm[2]
+			}
+		}
+	}
 	byPtr := map[*oStruct][]string{}
 	for i, k := range *defsMap.keys {
 		name, _ := strOf(k)
